@@ -832,6 +832,12 @@ def str_method(R, E, recv, name, args, kwargs, node):
         return r
     if name == "format":
         raise Unsupported("str.format with symbolic parts")
+    if name in ("lower", "upper", "casefold", "title", "capitalize", "swapcase") and not args and not kwargs:
+        # case mappings of a symbolic string: an UNINTERPRETED function of the string (nothing is assumed about it, not even the length:
+        # 'İ'.lower() has two code points) - whatever is proved holds for the real mapping; a goal that needs facts about it stays open
+        f = z3.Function("str_" + name, z3.StringSort(), z3.StringSort())
+        E.assumptions_used.add("str.%s of a symbolic string is an uninterpreted function (no property of the case mapping is assumed)" % name)
+        return f(s)
     raise Unsupported("str.%s on symbolic string" % name)
 
 
